@@ -56,14 +56,20 @@ def units():
     EF = h.ExternalModule(name="UF", port_list=[h.Inout(name="a"), h.Inout(name="units_0"), h.Inout(name="units_1"),
                                                 h.Inout(name="i_0")], desc="", domain="u")
     # a unit with a bundle-valued port next to its signal ports - as written, and already elaborated (bundle flattened)
-    def bmod(pre, namesake=None):
+    def bmod(pre, namesake=None, directed=None):
         def mk():
             UB = h.Bundle(name="UnitB")
-            UB.add(h.Signal(name="x"))
-            UB.add(h.Signal(name="y", width=2))
+            if directed is None:
+                UB.add(h.Signal(name="x"))
+                UB.add(h.Signal(name="y", width=2))
+            else:
+                UB.add(h.Input(name="x"))
+                UB.add(h.Output(name="y", width=2))
             m = h.Module(name="BUnit")
             m.a, m.z = h.Port(), h.Port()
-            m.bb = UB(port=True)
+            m.bb = UB(port=True) if directed != "flipped" else UB(port=True, flipped=True)
+            if directed == "flipped-by-function":
+                m.bb = h.flipped(UB(port=True))
             m.e = h.ExternalModule(name="U4b", port_list=[h.Inout(name="p"), h.Inout(name="q"), h.Inout(name="r", width=2),
                                                         h.Inout(name="s")], desc="", domain="u")()(p=m.a, q=m.bb.x, r=m.bb.y, s=m.z)
             if namesake == "port":
@@ -73,7 +79,21 @@ def units():
             elif namesake == "signal":
                 m.bb_x = h.Signal()
                 m.e2 = h.R(r=1)(p=m.bb_x, n=m.a)
-            if pre:
+            if pre == "failed-parent":
+                # the unit left half-way by the FAILED elaboration of another design that contains it (its bundle port
+                # flattened, the unit never marked elaborated)
+                bad = h.Module(name="BUnitBadParent")
+                bad.ub = UB()
+                bad.s, bad.w3 = h.Signal(), h.Signal(width=3)
+                bad.u = m(a=bad.s, z=bad.s, bb=bad.ub)
+                bad.arr = 2 * h.R(r=1)(p=bad.w3, n=bad.s)
+                try:
+                    h.elaborate(bad)
+                except Exception:
+                    pass
+                else:
+                    raise AssertionError("the bad parent was accepted")
+            elif pre:
                 h.elaborate(m)
             return m
         return mk
@@ -91,6 +111,9 @@ def units():
     return [("BMod", bmod(False), ["a", "z"]), ("BModE", bmod(True), ["a", "z"]),
             ("BModNP", bmod(False, "port"), ["a", "z"]), ("BModNS", bmod(False, "signal"), ["a", "z"]),
             ("BModNPE", bmod(True, "port"), ["a", "z"]),
+            ("BModD", bmod(False, None, "plain"), ["a", "z"]), ("BModF", bmod(False, None, "flipped"), ["a", "z"]),
+            ("BModFE", bmod(True, None, "flipped"), ["a", "z"]), ("BModFF", bmod(False, None, "flipped-by-function"), ["a", "z"]),
+            ("BModH", bmod("failed-parent"), ["a", "z"]), ("BModHF", bmod("failed-parent", None, "flipped"), ["a", "z"]),
             ("DirMod", dmod, ["i1", "i2", "o1", "o2", "io"]), ("DirExt", lambda: ED(), ["i1", "i2", "o1", "o2"]),
             ("EI", lambda: EI(), ["i", "o", "units"]), ("EF", lambda: EF(), ["a", "units_0", "units_1", "i_0"]),
             ("R", lambda: h.R(r=1), ["p", "n"]), ("Nmos", lambda: h.Nmos(), ["d", "g", "s", "b"]),
@@ -139,6 +162,7 @@ def check_series(case):
             def __init__(self, width):
                 self.width = width
         uports = {p_.signal: _P(tw[p_.signal]) for p_ in tm.ports}
+        udirs = {p_.signal: p_.direction for p_ in tm.ports}
     # the generated module's name for each unit port: the same name - except that a flattened bundle member which had to
     # step around a PRIVATE object of the unit (`bb_x_` next to an internal signal `bb_x`) has no reason to in the
     # generated module, whose namespace holds the unit's ports and Series' own objects only
@@ -166,6 +190,12 @@ def check_series(case):
     exported_ports = [p_.signal for p_ in top.ports]
     if sorted(exported_ports) != sorted(sigof.values()) or sorted(s_.name for s_ in top.signals if s_.name in sigof.values()) != sorted(sigof.values()):
         return ("post.ports", f"{case!r}: the exported module has ports {exported_ports}, the unit has {list(uports)}", w)
+    # ... with the unit's directions (a flipped bundle port stays flipped)
+    if "udirs" in locals():
+        tdirs = {p_.signal: p_.direction for p_ in top.ports}
+        wrong = [(pn, tdirs.get(sigof[pn]), udirs[pn]) for pn in uports if tdirs.get(sigof[pn]) != udirs[pn]]
+        if wrong:
+            return ("post.port-direction", f"{case!r}: port directions (port, generated module, unit): {wrong}", w)
     insts = list(top.instances)
     if len(insts) != n:
         return ("post.count", f"{case!r}: {len(insts)} unit instances, expected {n}", w)
